@@ -3,7 +3,10 @@ import Ipv8.Base.Proto
 import Ipv8.C12.Model
 open Ipv8 Ipv8.C12
 
-def parseAddr (tok : String) : Option Addr :=
+/-- "<kind>.<hex>.<port>[~<class>]": the class of the argument object is irrelevant (Python compares address tuples by
+    value) and dropped -/
+def parseAddr (tok0 : String) : Option Addr :=
+  let tok := (Proto.splitChar tok0 '~').headD tok0
   match Proto.splitChar tok '.' with
   | [k, h, p] => do
     let kind ← k.toNat?
